@@ -53,6 +53,22 @@ Theorem C20_judgement_transfer : forall c o, C20c.agree (c, o) = true -> C20c.ok
 Proof. exact JudgeC20P.C20_judgement_transfer. Qed.
 
 
+(* ---- source tie (DESIGN 11.8): definitions REGENERATED from the Rust source text by bin/rs2v.py on every run
+   (coq/Generated/*.v) coincide with the hand-written model ---- *)
+From BEI Require Generated.ValueSrc Generated.EventsSrc Generated.TrackerSrc Proofs.SrcTieP.
+Theorem C20_source_convert : forall v d, Value.veq (ValueSrc.convert_src v d) (Value.convert d v).
+Proof. exact SrcTieP.convert_tie. Qed.
+
+Theorem C20_source_as_bool : forall v, ValueSrc.as_bool_src v = Value.as_bool v.
+Proof. exact SrcTieP.as_bool_tie. Qed.
+
+Theorem C20_source_is_actuated : forall v t, ValueSrc.is_actuated_src v t = Value.is_actuated v t.
+Proof. exact SrcTieP.is_actuated_tie. Qed.
+
+Theorem C20_source_zero_dim : forall d v, ValueSrc.zero_src d = Value.vzero d /\ ValueSrc.dim_src v = Value.vdim v.
+Proof. exact (fun d v => conj (SrcTieP.zero_tie d) (SrcTieP.dim_tie v)). Qed.
+
+
 Print Assumptions C20_dim.
 Print Assumptions C20_same_dim_identity.
 Print Assumptions C20_widen_then_narrow.
@@ -64,3 +80,7 @@ Print Assumptions C20_truthiness_preserved_by_widening.
 Print Assumptions C20_actuated_iff_magnitude.
 Print Assumptions C20_judgement_sound.
 Print Assumptions C20_judgement_transfer.
+Print Assumptions C20_source_convert.
+Print Assumptions C20_source_as_bool.
+Print Assumptions C20_source_is_actuated.
+Print Assumptions C20_source_zero_dim.
